@@ -37,6 +37,7 @@ import (
 	"path/filepath"
 	"sort"
 	"strings"
+	"time"
 
 	"golang.org/x/tools/go/packages"
 )
@@ -148,9 +149,6 @@ var w = &world{calls: map[string][]*callSite{}, lits: map[string][]*litSite{}, f
 
 // dirsWithKeywords: phase 1 — a purely syntactic sweep over every non-test file of the module to decide which
 // packages have to be type-checked (loading all 88 packages with types costs > 25 s).
-var keywords = map[string]bool{"AddTransfer": true, "AddSignedTransfer": true, "AddMint": true, "NewTransfer": true, "NewMint": true,
-	"SignedTransfer": true, "SetClientState": true, "GetState": true, "NewSC": true, "Insert": true, "Delete": true, "Transfer": true}
-
 func phase1(gosrc string) (paths []string, nameIndex map[string]map[string]bool) {
 	nameIndex = map[string]map[string]bool{} // identifier in call position -> set of import paths
 	seen := map[string]bool{}
@@ -177,6 +175,7 @@ func phase1(gosrc string) (paths []string, nameIndex map[string]map[string]bool)
 			ip = mod
 		}
 		hit := false
+		mentionsMPT, insDel := false, false
 		ast.Inspect(f, func(n ast.Node) bool {
 			switch x := n.(type) {
 			case *ast.CallExpr:
@@ -187,34 +186,44 @@ func phase1(gosrc string) (paths []string, nameIndex map[string]map[string]bool)
 				case *ast.SelectorExpr:
 					nm = f.Sel.Name
 				}
-				if nm != "" {
-					if nameIndex[nm] == nil {
-						nameIndex[nm] = map[string]bool{}
-					}
-					nameIndex[nm][ip] = true
-					if keywords[nm] && nm != "Transfer" {
-						// Insert/Delete are common names: only a trie receiver matters, decided with types later; to bound
-						// the load we take them only when the file also mentions a trie or a state context
-						if nm == "Insert" || nm == "Delete" || nm == "GetState" {
-							return true
-						}
+				if nm == "" {
+					return true
+				}
+				if nameIndex[nm] == nil {
+					nameIndex[nm] = map[string]bool{}
+				}
+				nameIndex[nm][ip] = true
+				switch nm {
+				case "AddTransfer", "AddSignedTransfer", "AddMint", "NewTransfer", "NewMint", "NewSC":
+					hit = true
+				case "SetClientState":
+					if len(x.Args) == 2 { // StateContext.SetClientState(id, state); Block.SetClientState(mpt) has one argument
 						hit = true
 					}
+				case "Insert", "Delete":
+					insDel = true
+				case "GetState":
+					mentionsMPT = true
 				}
 			case *ast.CompositeLit:
-				if s, ok := x.Type.(*ast.SelectorExpr); ok && (s.Sel.Name == "Transfer" || s.Sel.Name == "SignedTransfer" || s.Sel.Name == "Transaction" || s.Sel.Name == "Mint") {
-					hit = true
+				if s, ok := x.Type.(*ast.SelectorExpr); ok && (s.Sel.Name == "Transfer" || s.Sel.Name == "SignedTransfer" || s.Sel.Name == "Mint") {
+					if id, ok := s.X.(*ast.Ident); ok && id.Name == "state" {
+						hit = true
+					}
 				}
 				if id, ok := x.Type.(*ast.Ident); ok && (id.Name == "SignedTransfer" || id.Name == "Mint") {
 					hit = true
 				}
-			case *ast.SelectorExpr:
-				if x.Sel.Name == "MerklePatriciaTrieI" || x.Sel.Name == "MerklePatriciaTrie" || x.Sel.Name == "StateContextI" || x.Sel.Name == "StateContext" {
-					hit = true
+			case *ast.Ident:
+				if strings.Contains(x.Name, "MerklePatriciaTrie") {
+					mentionsMPT = true
 				}
 			}
 			return true
 		})
+		if mentionsMPT && insDel {
+			hit = true
+		}
 		if hit && !seen[ip] {
 			seen[ip] = true
 			paths = append(paths, ip)
@@ -598,6 +607,10 @@ func terminal(ctx *fctx, r role, e ast.Expr) (string, bool) {
 				if r == rAmt {
 					return "txnValue", true
 				}
+			case "Fee":
+				if r == rAmt {
+					return "txnFee", true
+				}
 			}
 			if r == rAmt {
 				return "computed", true
@@ -727,6 +740,24 @@ func benchOnly(ctx *fctx) bool {
 	fb := ctx.fileBase()
 	return strings.HasPrefix(rel, "smartcontract/benchmark") || strings.HasSuffix(rel, "/test") || strings.HasSuffix(rel, "/mocks") ||
 		strings.HasPrefix(fb, "benchmark_") || rel == "smartcontract/dbs/benchmark"
+}
+
+// toolOnly: the function lives in benchmark / test-helper code AND every caller of it does too (3 levels), so no
+// transaction reaches it.
+func toolOnly(ctx *fctx, depth int) bool {
+	if !benchOnly(ctx) {
+		return false
+	}
+	if ctx.decl == nil || depth > 3 {
+		return true
+	}
+	sites, _ := callSitesOf(ctx)
+	for _, cs := range sites {
+		if !toolOnly(cs.ctx, depth+1) {
+			return false
+		}
+	}
+	return true
 }
 
 func allowed(ctx *fctx, e ast.Expr) (string, string, bool) {
@@ -1073,11 +1104,19 @@ func (c *chaser) fields(ctx *fctx, items []item, via []string, inLoop bool, guar
 			c.giveUpItem(ctx, items, i, &via, &guard)
 			continue
 		}
-		if st == nil {
+		if st == nil && items[i].role == rSrc {
 			st = nt
 		}
 	}
 	if st == nil {
+		// only amounts are pending: a field that is not read together with the source's struct is just "computed"
+		for i := range items {
+			if items[i].expr != nil {
+				if _, ok := items[i].expr.(*ast.SelectorExpr); ok {
+					c.giveUpItem(ctx, items, i, &via, &guard)
+				}
+			}
+		}
 		c.run(ctx, items, via, inLoop, guard, depth+1)
 		return
 	}
@@ -1207,6 +1246,10 @@ type row struct {
 var rows []row
 
 func classify(ctx *fctx, kind string, srcE, amtE ast.Expr, inLoop bool, exprText string, viaPrefix []string) {
+	if (kind == "constructSigned" || kind == "addSigned") && toolOnly(ctx, 0) {
+		rows = append(rows, row{pkg: ctx.rel(), fn: ctx.name(), kind: kind, src: "tool", amt: "computed", inLoop: inLoop, expr: exprText})
+		return
+	}
 	if kind == "constructSigned" || kind == "addSigned" {
 		rows = append(rows, row{pkg: ctx.rel(), fn: ctx.name(), kind: kind, src: "signed", amt: "computed", inLoop: inLoop, expr: exprText, via: strings.Join(viaPrefix, "; ")})
 		return
@@ -1220,8 +1263,8 @@ func classify(ctx *fctx, kind string, srcE, amtE ast.Expr, inLoop bool, exprText
 	seen := map[string]bool{}
 	for _, a := range c.out {
 		r := row{pkg: ctx.rel(), fn: ctx.name(), kind: kind, src: a.classes[0], amt: a.classes[1], inLoop: a.inLoop, guard: a.guard, via: strings.Join(a.via, "; "), expr: exprText}
-		if benchOnly(ctx) && (r.src == "other" || r.src == "unreachable") {
-			r.src = "tool"
+		if toolOnly(ctx, 0) {
+			r.src, r.via = "tool", ""
 		}
 		k := fmt.Sprint(r)
 		if !seen[k] {
@@ -1460,7 +1503,7 @@ func pkgClass(ctx *fctx) string {
 		return "engine"
 	case rel == "chaincore/chain/state":
 		return "definition"
-	case benchOnly(ctx):
+	case toolOnly(ctx, 0):
 		return "tool"
 	case strings.HasPrefix(rel, "smartcontract/") || rel == "chaincore/tokenpool" || rel == "chaincore/smartcontract" || rel == "chaincore/smartcontractinterface":
 		return "contract"
@@ -1547,6 +1590,9 @@ func scan() {
 							if t := info.TypeOf(x); t != nil && namedIs(t, pTxn, "Transaction") && pkgClass(ctx) == "contract" {
 								txnMakes = append(txnMakes, fact{a: ctx.rel(), b: ctx.name()})
 							}
+							if ctx.pkg.PkgPath == pState && ctx.name() == "NewTransfer" {
+								return true // the constructor itself: its call sites are the construction sites
+							}
 							if _, _, sg, ok := transferParts(ctx, x); ok && !consSeen[x] {
 								consSeen[x] = true
 								s, a, _, _ := transferParts(ctx, x)
@@ -1585,14 +1631,14 @@ func scan() {
 									classify(c.ctx, "add", c.srcE, c.amtE, c.inLoop, src(x), via)
 									for i := before; i < len(rows); i++ { // the row belongs to the AddTransfer site
 										rows[i].pkg, rows[i].fn = ctx.rel(), ctx.name()
-										if benchOnly(ctx) && rows[i].src == "other" {
-											rows[i].src = "tool"
+										if toolOnly(ctx, 0) {
+											rows[i].src, rows[i].via = "tool", ""
 										}
 									}
 								}
 								for _, u := range un {
 									cl := "other"
-									if benchOnly(ctx) {
+									if toolOnly(ctx, 0) {
 										cl = "tool"
 									}
 									rows = append(rows, row{pkg: ctx.rel(), fn: ctx.name(), kind: "add", src: cl, amt: "computed", inLoop: loop, expr: src(x), via: "unresolved argument: " + u})
@@ -1692,9 +1738,12 @@ func main() {
 		all = append(all, p)
 	}
 	sort.Strings(all)
+	t0 := time.Now()
 	load(gosrc, all)
+	t1 := time.Now()
 	index()
 	scan()
+	fmt.Fprintf(os.Stderr, "xc04: loaded %v in %v, analysis %v\n", all, t1.Sub(t0), time.Since(t1))
 
 	// soundness of the call-site chase: every package that calls (by name) a function we chased through must be loaded
 	loaded := map[string]bool{}
@@ -1741,15 +1790,32 @@ func main() {
 		if a.amt != b.amt {
 			return a.amt < b.amt
 		}
+		if a.inLoop != b.inLoop {
+			return !a.inLoop
+		}
+		if a.guard != b.guard {
+			return a.guard < b.guard
+		}
 		return a.via < b.via
 	})
-	// drop exact duplicates
+	// one row per (site, classes): the shortest chase path is kept, the number of further paths is noted
 	var uniq []row
-	for i, r := range rows {
-		if i > 0 && r == rows[i-1] {
-			continue
+	more := map[int]int{}
+	for _, r := range rows {
+		if n := len(uniq); n > 0 {
+			l := uniq[n-1]
+			if l.pkg == r.pkg && l.fn == r.fn && l.kind == r.kind && l.expr == r.expr && l.src == r.src && l.amt == r.amt && l.inLoop == r.inLoop && l.guard == r.guard {
+				more[n-1]++
+				if len(r.via) < len(l.via) {
+					uniq[n-1].via = r.via
+				}
+				continue
+			}
 		}
 		uniq = append(uniq, r)
+	}
+	for i, n := range more {
+		uniq[i].via += fmt.Sprintf(" (+%d more paths)", n)
 	}
 	rows = uniq
 	sortFacts := func(fs []fact) []fact {
